@@ -437,6 +437,7 @@ func (p *MultiGetPlan) Batch(ctx *ExecuteCtx) ([]KVPair, error) {
 					chooseIdxes = append(chooseIdxes, bidx)
 					count += 1
 				}
+				bidx += 1
 			}
 		}
 		if count >= PlanBatchSize {
